@@ -1380,3 +1380,5 @@ if __name__ == "__main__":
     src2v3_capi.main()
     import src2v3_keys  # work package capiT: coq/gen/Src3k.v (curve25519-parser, fails closed per item)
     src2v3_keys.main()
+    import src2v3_enc  # work package encT: coq/gen/Src3e.v, reading side of the encryption layer (fails closed per item)
+    src2v3_enc.main()
